@@ -189,3 +189,41 @@ Proof.
     rewrite (firstn_all2 (n := dl - length out)) by (rewrite firstn_length, skipn_length; lia). reflexivity.
   - replace (i - f)%nat with 0%nat by lia. cbn [firstn]. rewrite app_nil_r. reflexivity.
 Qed.
+
+(* ---- [pus base maxv 0 ds = Some v] says: ds is a string of digits of the base (either case) with value v <= maxv ---- *)
+Definition digits_of (base : Z) (ds dv : list Z) : Prop := Forall2 (fun c d => digit c = Some d /\ d < base) ds dv.
+Definition value_from (base n : Z) (dv : list Z) : Z := fold_left (fun m d => m * base + d) dv n.
+Lemma value_from_mono base : 1 <= base -> forall dv n, 0 <= n -> Forall (fun d => 0 <= d) dv -> n <= value_from base n dv.
+Proof.
+  intros Hb. induction dv as [|d dv IH]; intros n Hn Hd; [cbn; lia|]. inversion Hd; subst. cbn [value_from fold_left].
+  fold (value_from base (n * base + d) dv). specialize (IH (n * base + d) ltac:(nia) ltac:(assumption)). nia.
+Qed.
+Lemma pus_of_digits base maxv : 1 <= base -> forall ds dv n, 0 <= n -> digits_of base ds dv -> value_from base n dv <= maxv ->
+  pus base maxv n ds = Some (value_from base n dv).
+Proof.
+  intros Hb. induction ds as [|c ds IH]; intros dv n Hn Hf Hv; inversion Hf as [|? d ? dv' [Hc Hd] Hf']; subst; [reflexivity|].
+  cbn [pus]. rewrite Hc. destruct (Z.leb_spec base d); [lia|]. cbv zeta.
+  pose proof (digit_range _ _ Hc) as Hr.
+  assert (Hpos : Forall (fun d => 0 <= d) dv').
+  { clear -Hf'. induction Hf' as [|? ? ? ? [Hx _] _ IH']; constructor; [pose proof (digit_range _ _ Hx); lia|exact IH']. }
+  cbn [value_from fold_left] in Hv |- *. fold (value_from base (n * base + d) dv') in Hv |- *.
+  pose proof (value_from_mono base Hb dv' (n * base + d) ltac:(nia) Hpos).
+  destruct (Z.ltb_spec maxv (n * base + d)); [lia|]. apply IH; [nia|exact Hf'|exact Hv].
+Qed.
+Lemma digits_of_pus base maxv : forall ds n v, pus base maxv n ds = Some v -> n <= maxv ->
+  exists dv, digits_of base ds dv /\ value_from base n dv = v /\ v <= maxv.
+Proof.
+  induction ds as [|c ds IH]; intros n v H Hn; cbn [pus] in H.
+  - inversion H; subst. exists []. split; [constructor|]. split; [reflexivity|exact Hn].
+  - destruct (digit c) as [d|] eqn:Ed; [|discriminate]. destruct (Z.leb_spec base d); [discriminate|].
+    cbv zeta in H. destruct (Z.ltb_spec maxv (n * base + d)); [discriminate|].
+    destruct (IH _ _ H ltac:(lia)) as (dv & Hf & Hv & Hm). exists (d :: dv). split; [constructor; [split; assumption|exact Hf]|].
+    split; [exact Hv|exact Hm].
+Qed.
+Theorem pus_wellformed base maxv ds v : 1 <= base -> 0 <= maxv ->
+  pus base maxv 0 ds = Some v <-> exists dv, digits_of base ds dv /\ value_from base 0 dv = v /\ v <= maxv.
+Proof.
+  intros Hb Hm. split.
+  - intros H. apply (digits_of_pus base maxv ds 0 v H Hm).
+  - intros (dv & Hf & Hv & Hle). subst v. apply pus_of_digits; [exact Hb|lia|exact Hf|exact Hle].
+Qed.
